@@ -35,7 +35,7 @@ def shapes(n):
 FRAG = "fn f(x=-1, y+2, z -3,4)"      # code fragment containing things that look like hunk coordinates
 
 
-def hunk_lines(shape, os_, ns, long_mask, frag="", moved=False):
+def hunk_lines(shape, os_, ns, long_mask, frag="", moved=False, uneven=None):
     oc = sum(1 for c in shape if c in " -")
     nc = sum(1 for c in shape if c in " +")
 
@@ -45,6 +45,11 @@ def hunk_lines(shape, os_, ns, long_mask, frag="", moved=False):
     lines = [hh]
     for i, c in enumerate(shape):
         content = (LONG if long_mask[i] else "x%d" % i)
+        if uneven and c in "-+":
+            # partners of different lengths: in a narrow panel the two halves of a row pair wrap into different
+            # numbers of rows
+            long_side = "-" if uneven == "minus" else "+"
+            content = ("same same same same same same same x%d" if c == long_side else "same same same x%d") % i
         if moved == "pair":
             # similar lines, so that removed and added lines are partners (shown on one row side by side)
             content = "same same same same x%d" % i
@@ -298,7 +303,8 @@ def build_input(hunks_by_file):
             os_, ns, shape, mask = h[:4]
             opt = h[4] if len(h) > 4 else ""
             lines += hunk_lines(shape, os_, ns, mask, frag=FRAG if "frag" in opt else "",
-                                moved=("pair" if "movedpair" in opt else "moved" in opt))
+                                moved=("pair" if "movedpair" in opt else "moved" in opt),
+                                uneven="minus" if "uneven-minus" in opt else "plus" if "uneven-plus" in opt else None)
             flat.append((path, os_, ns, shape))
     return ("\n".join(lines) + "\n").encode(), flat
 
@@ -375,6 +381,11 @@ def cases_for(tier, view):
                 else [tuple([True] * len(sh))]
             for m in masks:
                 out.append([("f.txt", [(9, 99, sh, list(m))])])
+    # partners of different lengths (the longer one removed, the longer one added)
+    if view == "sbs":
+        for sh in [x for x in shapes(4 if tier == "quick" else 5) if "-" in x and "+" in x]:
+            out.append([("f.txt", [(40, 40, sh, [False] * len(sh), "uneven-minus")])])
+            out.append([("f.txt", [(40, 40, sh, [False] * len(sh), "uneven-plus")])])
     # code fragments that contain coordinate look-alikes; moved-colour (raw) lines
     for sh in list(shapes(3)) + ["-- +", " --++ "]:
         out.append([("f.txt", [(5, 7, sh, [False] * len(sh), "frag")])])
